@@ -1611,6 +1611,38 @@ namespace hs
             }
             stats().hit("reach.min_block_size_checked");
         }
+        else if (c.kind == K_ARENA)
+        {
+            Req    r{MEMBER, false, 1, 1, 1};
+            Alloc* a = nullptr;
+            bool   g = do_alloc(*S, 0, r, 0, &a, false);
+            if (!g || a->bytes < n)
+                violate("C18", "min_block_size_insufficient", "arena built with min_block_size(%zu): its first block "
+                                                              "%s (%zu usable bytes)",
+                        n, g ? "is smaller" : "could not be allocated", g ? a->bytes : std::size_t(0));
+            stats().hit("reach.min_block_size_checked");
+        }
+        else if (c.kind == K_STACK && FENCE != 0)
+        {
+            // with fences an allocation costs its size plus two fences: the capacity figure must cover n, and what
+            // the figure promises must be servable
+            auto cap = S->o->reading(0);
+            if (cap < n)
+                violate("C18", "min_block_size_insufficient", "stack built with min_block_size(%zu) reports "
+                                                              "capacity_left() %zu",
+                        n, cap);
+            if (n > 2 * FENCE)
+            {
+                Req    r{MEMBER, false, 1, n - 2 * FENCE, 1};
+                Alloc* a = nullptr;
+                bool   g = do_alloc(*S, 0, r, 0, &a, false);
+                if (!g || last_calls_)
+                    violate("C18", "min_block_size_insufficient", "stack built with min_block_size(%zu): "
+                                                                  "allocation of %zu bytes plus fences %s",
+                            n, n - 2 * FENCE, g ? "needed an upstream request" : "failed");
+            }
+            stats().hit("reach.min_block_size_checked");
+        }
         else if (c.kind == K_STACK && FENCE == 0)
         {
             Req    r{MEMBER, false, 1, n, 1};
